@@ -627,6 +627,10 @@ def _fn_of_canon(fname, p, ctx, power=1):
         if sf is not None and sf[0] == "F" and sf[1] == "exp":
             inner = form_to_expr(ctx.forms[sf[2]], dict(enumerate(sf[3])))
             return raw(mul(num(sf[4] * power), inner), ctx)
+        if sf is not None and sf[0] == "F" and sf[1] == "inv" and power == 1:
+            # log(1/P^k) = -k log(P)   (P is the positive denominator of a defined quotient)
+            inner = form_to_expr(ctx.forms[sf[2]], dict(enumerate(sf[3])))
+            return raw(mul(num(-sf[4]), fn("log", inner)), ctx)
         if len(p) == 1:
             (ff, nb), cc = next(iter(p.items()))
             if nb == 0 and cc == 1 and len(ff) == 1 and ff[0][0] in ("A", "F") and ff[0][-1] not in (0, 1):
